@@ -4,7 +4,9 @@ import (
 	"bytes"
 	"encoding/json"
 	"math/rand"
+	"regexp"
 	"time"
+	"verif/harness/internal/j"
 
 	"verif/harness/internal/gcs"
 	"verif/harness/internal/tlc"
@@ -68,13 +70,13 @@ func concretiseGcs(progs [][]gcs.Op) {
 }
 
 type gcsFamily struct {
-	Label      string
-	Models     []gcsModel
-	Gen        func(r *rand.Rand) []gcs.Op
-	NRandQ     int
-	NRandT     int
-	Stores     []string
-	Classify   func(store string, prog []gcs.Op, rej btReject, ev *gcs.Op) string
+	Label    string
+	Models   []gcsModel
+	Gen      func(r *rand.Rand) []gcs.Op
+	NRandQ   int
+	NRandT   int
+	Stores   []string
+	Classify func(store string, prog []gcs.Op, rej btReject, ev *gcs.Op) string
 }
 
 type gcsModel struct {
@@ -148,6 +150,33 @@ func (c *Ctx) runGcsFamily(f gcsFamily) {
 	c.Assume("byte-level codecs (gzip, multipart framing, URL escaping, MD5, JSON) are exercised as harness-level encodings of one abstract action, not modelled")
 }
 
+var shadowName = regexp.MustCompile(`(^|/)b/[^/]+/o(/|$)`)
+
+// genShadowProgram: an object whose name contains "/b/<other bucket>/o/<name>", with or without an object of that
+// name in the other bucket, read back through the three URL forms.
+func genShadowProgram(r *rand.Rand) []gcs.Op {
+	g := ggen{r: r, names: []string{"d/b/bkt-2/o/y", "storage/v1/b/bkt-2/o/y", "y", "d/b/bkt-2/o"}}
+	prog := []gcs.Op{{Ev: "CreateBucket", B: gcsBuckets[0]}, {Ev: "CreateBucket", B: gcsBuckets[1]}}
+	up := func(b j.B, n string) {
+		op := g.upload(b, j.S(n), 0)
+		op.Gzip = false
+		prog = append(prog, op)
+	}
+	shadow := g.names[g.pick(2)]
+	up(gcsBuckets[0], shadow)
+	if g.chance(0.6) {
+		up(gcsBuckets[1], "y")
+	}
+	forms := []string{"api", "download", "public"}
+	r.Shuffle(3, func(a, b int) { forms[a], forms[b] = forms[b], forms[a] })
+	for _, f := range forms {
+		prog = append(prog, gcs.Op{Ev: "GetMedia", B: gcsBuckets[0], N: j.S(shadow), Form: f, Slash: g.chance(0.5)})
+	}
+	prog = append(prog, gcs.Op{Ev: "GetMeta", B: gcsBuckets[0], N: j.S(shadow)}, gcs.Op{Ev: "Delete", B: gcsBuckets[0], N: j.S(shadow), Conds: gcs.NoConds()},
+		gcs.Op{Ev: "GetMedia", B: gcsBuckets[1], N: j.S("y"), Form: "public"}, gcs.Op{Ev: "GetMedia", B: gcsBuckets[0], N: j.S(shadow), Form: forms[0]})
+	return prog
+}
+
 var dataModel = gcsModel{Module: "MC_GcsData",
 	Quick: map[string]string{"MaxDepth": "3", "MaxObjs": "3", "WithRestart": "FALSE"}, Thorough: map[string]string{"MaxDepth": "4", "MaxObjs": "3", "WithRestart": "FALSE"},
 	SampleQ: "40", SampleT: "60", MaxReplayQ: 700,
@@ -178,6 +207,22 @@ func init() {
 			c.Nontrivial(describeGcs(p))
 		}
 		c.gcsValidate("C02", []string{"mem"}, progs, nil)
+		// names that contain something shaped like an API path: served correctly through the JSON and /download
+		// forms; through the public form the unanchored URL patterns take them for another bucket (known finding)
+		progs = nil
+		for i := 0; i < 6; i++ {
+			progs = append(progs, genShadowProgram(r))
+		}
+		for _, p := range progs {
+			c.AddEval(1)
+			c.Nontrivial(describeGcs(p))
+		}
+		c.gcsValidate("C02", allStores, progs, func(store string, prog []gcs.Op, rej btReject, ev *gcs.Op) string {
+			if ev != nil && ev.Ev == "GetMedia" && ev.Form == "public" && shadowName.Match(ev.N) {
+				return "G10-public-url-shadow"
+			}
+			return ""
+		})
 	}
 	checks["C04"] = func(c *Ctx) {
 		c.rule = "cases = conditioned requests: the complete table of MC_GcsConds (four parameters x unset/equal/different (+0, +unparsable) x object state absent,(g1,m1),(g1,m2),(g2,m1) x upload-media/upload-multipart/patch/delete/compose-destination/compose-source), every row printed by TLC with the history that reaches its object state and executed over HTTP on both stores, plus seeded random histories with random condition sets (including resumable uploads whose conditions are captured at start); after every request the read-back must equal the model state (unchanged on failure); distinct = distinct history text; non-trivial = history with a conditioned request"
